@@ -83,6 +83,22 @@ pub fn worker_entry(args: &[String], f: fn(&mut WorkerCtx)) -> i32 {
         samples: vec![],
     };
     crate::common::par::quiet_panics();
+    // from here on this process can write to (and delete from) a private tmpfs only
+    crate::engines::sandbox::isolate_filesystem();
+    if let Some(uid) = std::env::var("RVMC_WORKER_UID").ok().and_then(|x| x.parse::<u32>().ok()) {
+        std::env::remove_var("RVMC_WORKER_UID");
+        unsafe {
+            if libc::setgroups(0, std::ptr::null()) != 0 || libc::setgid(uid) != 0 || libc::setuid(uid) != 0 {
+                eprintln!("machinery: worker cannot switch to uid {}", uid);
+                return 2;
+            }
+            // the parent-death signal is cleared by the credential change
+            libc::prctl(libc::PR_SET_PDEATHSIG, libc::SIGKILL);
+            if libc::getppid() == 1 {
+                return 2;
+            }
+        }
+    }
     // stall guard: the worker loops bump a heartbeat at every work unit; a unit normally takes
     // milliseconds. No beat within the limit = a call into rivia that does not return.
     {
@@ -162,8 +178,8 @@ pub fn run_workers(ctx: &Ctx, l: &Launch, g: &mut Gathered) {
             }
         }
         if let Some(uid) = l.uid {
-            use std::os::unix::process::CommandExt;
-            cmd.uid(uid).gid(uid);
+            // the worker confines its filesystem first (needs root) and drops to this uid itself
+            cmd.env("RVMC_WORKER_UID", uid.to_string());
         }
         unsafe {
             // a worker must not outlive the check process that started it
